@@ -4,6 +4,7 @@ import (
 	"bytes"
 	"encoding/json"
 	"fmt"
+	"strings"
 	"sync"
 
 	"github.com/gcash/bchd/chaincfg/chainhash"
@@ -88,7 +89,7 @@ func c11EvalMsg(w *mc.W, cas c11Case, builder string, msg *wire.MsgMerkleBlock, 
 			wantIdx = append(wantIdx, uint32(i))
 		}
 	}
-	if fmt.Sprint(indices) != fmt.Sprint(wantIdx) {
+	if indices != nil && fmt.Sprint(indices) != fmt.Sprint(wantIdx) || indices == nil && !strings.Contains(builder, "re-examined") && len(wantIdx) > 0 {
 		fail("index-list-wrong", fmt.Sprintf("got %v want %v", indices, wantIdx))
 	}
 	// extraction
@@ -224,6 +225,43 @@ func c11Eval(w *mc.W, cas c11Case) {
 		fb[1].msg.BchEncode(&b1, wire.ProtocolVersion, wire.BaseEncoding)
 		if !bytes.Equal(b0.Bytes(), b1.Bytes()) || fmt.Sprint(fb[0].idx) != fmt.Sprint(fb[1].idx) {
 			c.Violate("the-two-proof-builders-disagree", "subset", cas, "")
+		}
+	}
+	// retained proofs: the messages built above are kept while proofs of ANOTHER block are built by
+	// all three builders; afterwards they must still be what they were (a builder that hands out
+	// slices of a reused scratch area corrupts earlier messages, not the one it is building)
+	if cas.N <= 64 || k == 0 || k == cas.N {
+		on := (cas.N*5+3)%29 + 2
+		if on == cas.N {
+			on++
+		}
+		ob := c11GetBlock(on)
+		oblock := bchutil.NewBlock(ob.msg)
+		mc.Guard(func() {
+			var all []*chainhash.Hash
+			for i := range ob.ids {
+				h := chainhash.Hash(ob.ids[i])
+				all = append(all, &h)
+			}
+			merkleblock.NewMerkleBlockWithTxnSet(oblock, all)
+			merkleblock.NewMerkleBlockWithTxnSet(oblock, all[len(all)-1:])
+			of := bloom.LoadFilter(wire.NewMsgFilterLoad(make([]byte, 4096), 10, 1, wire.BloomUpdateNone))
+			of.AddHash(all[0])
+			merkleblock.NewMerkleBlockWithFilter(oblock, of)
+			bloom.NewMerkleBlock(oblock, of)
+		})
+		w.Trans()
+		if first != nil {
+			c11EvalMsg(w, cas, "TxnSet(block order), re-examined after proofs of another block were built", first, nil, matched, b)
+		}
+		for _, x := range fb {
+			ind := make([]bool, cas.N)
+			for _, i := range x.idx {
+				if int(i) < cas.N {
+					ind[i] = true
+				}
+			}
+			c11EvalMsg(w, cas, x.name+", re-examined after proofs of another block were built", x.msg, x.idx, ind, b)
 		}
 	}
 	switch {
